@@ -35,7 +35,8 @@ type c18Case struct {
 	outf   string // "" | path
 	fault  *Fault
 	seed   uint64
-	stale  bool // the -f target already exists and holds a longer, older report
+	stale  bool   // the -f target already exists and holds a longer, older report
+	dir2   string // diff: second directory as spelled on the command line ("b", or the first one again)
 }
 
 // badFmt: the -o value is not one the command documents (json is a list format only).
@@ -73,7 +74,7 @@ func (c *c18Case) cliArgs() []string {
 			a = append(a, "--focusworkload", c.focus)
 		}
 	} else {
-		a = []string{"diff", "--dir1", "a", "--dir2", "b"}
+		a = []string{"diff", "--dir1", "a", "--dir2", c.dir2}
 	}
 	if c.fmt != "" {
 		a = append(a, "-o", c.fmt)
@@ -97,7 +98,7 @@ func (c *c18Case) libSteps() []job.Step {
 		s2.API = "infos"
 		return []job.Step{s, s2}
 	}
-	return []job.Step{{Kind: job.Diff, Dir1: "a", Dir2: "b", Fmt: c.fmt, Stop: c.fail}}
+	return []job.Step{{Kind: job.Diff, Dir1: "a", Dir2: c.dir2, Fmt: c.fmt, Stop: c.fail}}
 }
 
 func (c *c18Case) runs(cliSeed, libSeed uint64) []Run {
@@ -133,10 +134,13 @@ func c18Judge(res []*Result, outf string, faulty bool, badFmt bool) (clause, why
 	if e.Panic != nil {
 		return "", "" // C12's
 	}
-	if _, _, dead := crashed(cli); dead {
-		return "", "" // C12's
-	}
 	libErr := !e.OK
+	if sig, what, dead := crashed(cli); dead {
+		if !libErr {
+			return "exit", fmt.Sprintf("the CLI process crashed (%s, %s) where the library call succeeded", what, sig)
+		}
+		return "", "" // both fail; the crash itself is C12's
+	}
 	if !faulty {
 		if (cli.Exit != 0) != libErr {
 			return "exit", fmt.Sprintf("exit status %d but the library call %s (%s)", cli.Exit, map[bool]string{true: "returned an error", false: "succeeded"}[libErr], e.Err)
@@ -247,9 +251,13 @@ func c18Build(seed uint64, i int, corpus []CorpusDir, faulty bool) *c18Case {
 			c.lay = randomLayout(r, len(c.docs))
 		}
 	}
-	c.cmd = "list"
+	c.cmd, c.dir2 = "list", "b"
 	if r.chance(1, 3) {
 		c.cmd = "diff"
+		if r.chance(1, 4) {
+			// a directory compared with itself, under several spellings of its path
+			c.dir2 = pick(r, []string{"a", "a/", "./a", "a/../a"})
+		}
 	}
 	c.fmt = pick(r, []string{"", "txt", "json", "csv", "md", "dot"})
 	if c.cmd == "diff" && c.fmt == "json" {
@@ -403,9 +411,9 @@ func runC18(tier string, seed uint64) int {
 			bad = append(bad, i)
 		}
 	}
-	reported := 0
+	reported, tried := 0, 0
 	for _, i := range bad {
-		if reported >= 4 {
+		if reported >= 4 || tried >= 8 {
 			fmt.Printf("note: %d further failing cases not minimised\n", len(bad)-reported)
 			break
 		}
@@ -418,6 +426,8 @@ func runC18(tier string, seed uint64) int {
 		}
 		if rp.violation(rep) {
 			reported++
+		} else if knownFinding(rp.findings, rep.Property, rep.Sig) == nil {
+			tried++ // a repeat of a signature already reported in this run (listed findings never count)
 		}
 	}
 	var samples []interface{}
